@@ -370,7 +370,13 @@ class Conn(object):
             if fs.tx_dead or conn.closed:
                 res = ("ok", None)
             else:
-                r = L.op(who, conn._sendMsg(msg), pump_other=False)
+                saved = conn._user_record_limit
+                if op[2] == "kuco":
+                    conn._user_record_limit = 16384      # the faulty peer puts both messages into ONE record
+                try:
+                    r = L.op(who, conn._sendMsg(msg), pump_other=False)
+                finally:
+                    conn._user_record_limit = saved
                 res = ("ok", None) if r[0] == "ok" else r
         elif name == "kill":
             # ('c','kill',rx[,tx_kind[,rx_kind]]): rx 1 = EOF, 2 = error; the model only knows rx 1/2 and "sends fail"
